@@ -183,6 +183,8 @@ fn scenario(run: &mut Run, rng: &mut Rng, case: u64) -> anyhow::Result<()> {
         let mut post = serde_json::Map::new();
         post.insert("upgrade".into(), json!(weak.upgrade().is_some()));
         post.insert("service_clones_alive".into(), json!(svc.live_clones.load(Ordering::SeqCst)));
+        // futures produced by the user's service that are still alive (a detached or leaked request task)
+        post.insert("handler_futures_alive".into(), json!(svc.concurrent.load(Ordering::SeqCst)));
         if let Some(net) = net_opt.as_ref() {
             post.insert("is_closed".into(), json!(net.is_closed()));
             post.insert("peers".into(), json!(net.peers().len()));
@@ -244,8 +246,8 @@ fn scenario(run: &mut Run, rng: &mut Rng, case: u64) -> anyhow::Result<()> {
     if post["upgrade"] == json!(true) {
         bad.push("weak reference still upgrades after shutdown");
     }
-    if post["service_clones_alive"].as_i64().unwrap_or(0) != 0 {
-        bad.push("clones of the user's service are still alive after shutdown");
+    if post["service_clones_alive"].as_i64().unwrap_or(0) != 0 || post["handler_futures_alive"].as_i64().unwrap_or(0) != 0 {
+        bad.push("clones of the user's service (or futures it produced) are still alive after shutdown");
     }
     if !plan.by_drop {
         if post["is_closed"] != json!(true) || post["peers"] != json!(0) {
